@@ -475,8 +475,38 @@ func CheckMain(id, tier string, self string) int {
 	}
 	merged := Report{Counters: map[string]int64{}, MaxCounters: map[string]int64{}, Sets: map[string]map[string]int{}, Exhaustive: true}
 	harnessErrs := []string{}
+	// Supervision: a worker that is still running well after the internal deadline is stuck inside one item (the
+	// workers test the deadline between items). It is killed, and the item it was executing is re-executed alone
+	// in a fresh process (isolatedVerdict) — the same happens for a worker that died.
+	grace := 3 * time.Minute
+	if tier == "thorough" {
+		grace = 6 * time.Minute
+	}
+	werrs := make([]error, n)
+	stalled := make([]bool, n)
+	doneCh := make(chan int, n)
+	for i := range procs {
+		go func(i int) { werrs[i] = procs[i].cmd.Wait(); doneCh <- i }(i)
+	}
+	finished := make([]bool, n)
+	timer := time.NewTimer(time.Until(time.Unix(deadline, 0).Add(grace)))
+	for left := n; left > 0; {
+		select {
+		case i := <-doneCh:
+			finished[i] = true
+			left--
+		case <-timer.C:
+			for i := range procs {
+				if !finished[i] {
+					stalled[i] = true
+					procs[i].cmd.Process.Kill()
+				}
+			}
+		}
+	}
+	timer.Stop()
 	for i, p := range procs {
-		werr := p.cmd.Wait()
+		werr := werrs[i]
 		var r Report
 		b, rerr := os.ReadFile(filepath.Join(scratch, fmt.Sprintf("report.%d.json", i)))
 		if rerr == nil {
@@ -492,7 +522,17 @@ func CheckMain(id, tier string, self string) int {
 			}
 			tail := p.stderr.String()
 			first := firstFatalLine(tail)
-			harnessErrs = append(harnessErrs, fmt.Sprintf("worker %d died (%v) while executing family %q item %q: %s", i, werr, fam, clip(item, 300), first))
+			how := "died"
+			if stalled[i] {
+				how = fmt.Sprintf("was still inside one item %s after the deadline and was killed", grace)
+			}
+			if f := isolatedVerdict(self, id, fam, item, stalled[i]); f != nil {
+				merged.Failures = append(merged.Failures, *f)
+				merged.FailTotal++
+				fmt.Fprintf(os.Stderr, "worker %d %s while executing family %q item %q; re-executed alone: %s\n", i, how, fam, clip(item, 300), f.Sig)
+			} else {
+				harnessErrs = append(harnessErrs, fmt.Sprintf("worker %d %s (%v) while executing family %q item %q: %s", i, how, werr, fam, clip(item, 300), first))
+			}
 			if len(tail) > 3000 {
 				tail = tail[:3000]
 			}
@@ -568,6 +608,11 @@ func CheckMain(id, tier string, self string) int {
 			continue
 		}
 		seenBucket[k] = true
+		if f.Sig == "harness:cannot-run-binary" || f.Sig == "harness:bad-payload" {
+			// the check could not judge the item (bad payload, binary cannot be started): not a verdict on the subject
+			harnessErrs = append(harnessErrs, fmt.Sprintf("%s on item %s: %s", f.Sig, clip(f.Witness, 200), clip(f.Detail, 300)))
+			continue
+		}
 		if kf := matchKnown(known, id, f); kf != nil {
 			knownHit[kf]++
 			continue
@@ -674,6 +719,66 @@ func CheckMain(id, tier string, self string) int {
 	return 0
 }
 
+// isolatedVerdict re-executes one item alone in a fresh process after the worker executing it died or was killed
+// for not finishing. The item fails if it fails again alone: with a signature of its own, by killing the process
+// again, or by not finishing within 120 s a second time (items take milliseconds to a few seconds). nil: the item is
+// fine alone, the loss of the worker stays a harness error.
+func isolatedVerdict(self, id, fam, item string, wasStalled bool) *Failure {
+	if item == "" {
+		return nil
+	}
+	if !strings.HasPrefix(item, "{") {
+		// session checks shard by the statements joined with a separator line; their payload is {"stmts": [...]}
+		b, _ := json.Marshal(map[string][]string{"stmts": strings.Split(item, "\n----\n")})
+		item = string(b)
+	}
+	sig, detail, died, timedOut := ExecIsolated(self, id, item, 120*time.Second)
+	switch {
+	case timedOut && wasStalled:
+		return &Failure{Family: fam, Item: item, Witness: item, Sig: "nontermination:" + fam, Detail: "executing this item does not finish: the worker was killed long after the deadline and a fresh process executing only this item was killed after 120 s"}
+	case timedOut:
+		return nil
+	case died != "":
+		return &Failure{Family: fam, Item: item, Witness: item, Sig: "host-fatal:" + fam, Detail: "executing this item kills the process, twice: " + died}
+	case strings.HasPrefix(sig, "harness:"):
+		return nil
+	case sig != "":
+		return &Failure{Family: fam, Item: item, Witness: item, Sig: sig, Detail: detail}
+	}
+	return nil
+}
+
+// ExecIsolated runs `vcheck exec id item` in a fresh process.
+func ExecIsolated(self, id, item string, limit time.Duration) (sig, detail, died string, timedOut bool) {
+	cmd := exec.Command(self, "exec", id, item)
+	var out strings.Builder
+	cmd.Stderr = &out
+	cmd.Stdout = &out
+	if err := cmd.Start(); err != nil {
+		return "harness:cannot-start", err.Error(), "", false
+	}
+	done := make(chan error, 1)
+	go func() { done <- cmd.Wait() }()
+	select {
+	case err := <-done:
+		o := out.String()
+		if i := strings.LastIndex(o, "\x00EXEC-RESULT\x00"); i >= 0 {
+			var r struct{ Sig, Detail string }
+			if json.Unmarshal([]byte(o[i+len("\x00EXEC-RESULT\x00"):]), &r) == nil {
+				return r.Sig, r.Detail, "", false
+			}
+		}
+		if err != nil {
+			return "", "", firstFatalLine(o), false
+		}
+		return "harness:no-result", clip(o, 300), "", false
+	case <-time.After(limit):
+		cmd.Process.Kill()
+		<-done
+		return "", "", "", true
+	}
+}
+
 func firstFatalLine(s string) string {
 	for _, l := range strings.Split(s, "\n") {
 		if strings.HasPrefix(l, "fatal error:") || strings.HasPrefix(l, "panic:") || strings.HasPrefix(l, "runtime:") {
@@ -705,7 +810,19 @@ func ReplayMain(path string) int {
 		fmt.Fprintln(os.Stderr, "no replayable check", r.Property)
 		return 2
 	}
-	sig, detail := c.Exec(r.Witness)
+	var sig, detail string
+	if strings.HasPrefix(r.Sig, "nontermination:") || strings.HasPrefix(r.Sig, "host-fatal:") {
+		self, _ := os.Executable()
+		s2, d2, died, timedOut := ExecIsolated(self, r.Property, r.Witness, 120*time.Second)
+		sig, detail = s2, d2
+		if timedOut {
+			sig, detail = r.Sig, "executing the witness alone in a fresh process did not finish within 120 s"
+		} else if died != "" {
+			sig, detail = r.Sig, "executing the witness alone kills the process: "+died
+		}
+	} else {
+		sig, detail = c.Exec(r.Witness)
+	}
 	fmt.Printf("witness: %s\nexpected signature: %s\nobserved signature: %s\n%s\n", r.Witness, r.Sig, sig, detail)
 	if sig != "" {
 		fmt.Printf("VIOLATION property=%s replay=%s\n", r.Property, path)
